@@ -220,7 +220,7 @@ type Atom uint64
 // NewAtom interns the given string and returns an Atom.
 func NewAtom(name string) Atom {
 	// A one-char atom is just a rune.
-	if r, n := utf8.DecodeLastRuneInString(name); r != utf8.RuneError && n == len(name) {
+	if r, n := utf8.DecodeLastRuneInString(name); n == len(name) && (r != utf8.RuneError || n == 3) { // n == 3 means a genuine U+FFFD.
 		return Atom(r)
 	}
 
